@@ -95,17 +95,24 @@ def judge(blob, threads, recs, kseq, cpu, parser=None, offset=0):
     out = []
     err = None
     tables_at_first = None
+    late_table = []
     stream = io.BytesIO(bytes((i * 11 + 3) % 255 + 1 for i in range(offset)) + blob)
     stream.seek(offset)
     try:
         for x in p.parse(stream):
             if tables_at_first is None:
                 tables_at_first = (dict(p.threads_pids), dict(p.pids_names))
+            if isinstance(x, OsLogEvent) and x.process and x.thread_identifier and not late_table:
+                # a log record that names a process and a thread has extended the tables by the time it is handed out
+                if p.threads_pids.get(x.thread_identifier) != x.process_identifier or p.pids_names.get(x.process_identifier) != x.process:
+                    late_table.append((x.thread_identifier, x.process_identifier, x.process))
             out.append(x)
     except Exception as ex:
         err = f'{type(ex).__name__}: {ex}'
     if err:
         return [('v3-parse-raised', {'err': err, 'n_out': len(out)})]
+    if late_table:
+        bad.append(('v3-log-record-handed-out-before-the-tables-hold-it', {'record': repr(late_table[0])}))
     exp_ev = [ref_decode(r) for r in recs]
     first_log = next((i for i, x in enumerate(out) if isinstance(x, OsLogEvent)), len(out))
     evs = out[:first_log]
@@ -298,6 +305,19 @@ class C03(Check):
                 acc.case(nontrivial=True, transitions=len(evs) + 1, state=h64(('shared', label)), outcome=h64(('shared', label)))
                 if got != exp:
                     acc.violation('v3-logs:objects-stored-once-and-referred-to-twice', {'kind': 'long', 'variant': label}, {'got': repr(got)[:300], 'expected_n': len(exp)})
+            # a log record that names a process and a thread but carries no process id cannot extend the tables (it must not be filed
+            # under pid 0, which is a real process)
+            nopid = rec_(5)
+            del nopid['pid']
+            blocks = [B.v3_block(B.TAG_LOG_STRINGS, B.bplist({'StringIndex': STRINGS})), B.v3_block(B.TAG_LOG_EVENTS, B.bplist({'Events': [rec_(0), nopid]}))]
+            tp, pn = {}, {}
+            try:
+                n = len(list(KdBufParser(tp, pn).parse(io.BytesIO(B.v3([(9, 0, 'kernel_task')], [RECS[:1]], blocks)))))
+            except Exception as ex:
+                n = 'RAISED ' + type(ex).__name__
+            acc.case(nontrivial=True, transitions=3, state=h64('log-without-pid'))
+            if n != 3 or tp != {9: 0, 100: 40} or pn != {0: 'kernel_task', 40: 'procname'}:
+                acc.violation('v3-final-tables:log-record-without-a-process-id-filed-under-pid-0', {'kind': 'long', 'variant': 'log-without-pid'}, {'n': n, 'tp': repr(tp), 'pn': repr(pn)})
             # the dump does not begin at stream position 0
             for off in (1, 7, 8, 9, 64, 0x100, 0x120, 0x123, 4091, 4096, 4100):
                 for comp in ((3,), (1, 2), (1, 0, 2)):
